@@ -67,3 +67,10 @@ c14("underscore-and-dot-names", {"shape": "drill", "files": [f(["a"], "f0.parque
                                  "root_mode": "inferred", "cat_mode": "none", "verify": False, "bad_schema": None, "dup": None, "relative": False, "junk": True,
                                  "dir_slash": False, "colperm": None,
                                  "what": "directory values and file names starting with '_' or '.' are data (seeded C14-6 dropped them from the listing)", "fixed_by": "regression guard"})
+# wave 6: related partition column names, both orders (seeded C08-10 searched the path text for "<name>=" unanchored)
+case("related-names-tail-second", pd.DataFrame({**base(6), "fiscal_year": np.array([2020, 2021, 2020, 2021, 2020, 2021], dtype="int64"),
+                                              "year": pd.Series(["a", "a", "b", "b", "a", "b"], dtype=object)}), ["fiscal_year", "year"], "hive", 4,
+     "partition_on=['fiscal_year', 'year']: the level of `year` must be found by its own name, not inside 'fiscal_year=...'", "regression guard")
+case("related-names-tail-first", pd.DataFrame({**base(6), "year": np.array([1999, 2000, 1999, 2000, 1999, 2000], dtype="int64"),
+                                             "fiscal_year": np.array([True, False, True, True, False, False])}), ["year", "fiscal_year"], "hive", None,
+     "partition_on=['year', 'fiscal_year'] (the shorter name first)", "regression guard")
